@@ -1267,3 +1267,18 @@ B("C14", "single-circuit-batch-skips-length-check", (RUN, """        samples_per
             else n_samples
         )
         if len(samples_per_circuit) != len(circuits_batch):"""), rule="C14-D1")
+B("C12", "dicke-stop-test-strict", ("wavefunction.py", "                if not _most_significant_set_bit(current_value) <= n_qubits:", "                if not _most_significant_set_bit(current_value) < n_qubits:"), rule="C12-D7")
+B("C12", "dicke-stop-test-one-too-far", ("wavefunction.py", "                if not _most_significant_set_bit(current_value) <= n_qubits:", "                if _most_significant_set_bit(current_value) > n_qubits + 1:"), rule="C12-D7")
+B("C12", "dicke-counter-starts-at-zero", ("wavefunction.py", "            counter: int = 1\n", "            counter: int = 0\n"), rule="C12-D7")
+B("C12", "dicke-seed-one-bit-short", ("wavefunction.py", '            current_value = int("1" * hamming_weight, base=2)', '            current_value = int("1" * (hamming_weight - 1) + "0", base=2)'), rule="C12-D7")
+B("C12", "dicke-kept-before-tested", ("wavefunction.py", """                if not _most_significant_set_bit(current_value) <= n_qubits:
+                    break
+                indices.append(current_value)
+                counter += 1""", """                indices.append(current_value)
+                counter += 1
+                if not _most_significant_set_bit(current_value) <= n_qubits:
+                    break"""), rule="C12-D7")
+B("C12", "msb-off-by-one", ("wavefunction.py", "    return len(bin_string) - 2", "    return len(bin_string) - 3"), rule="C12-D7")
+T("C12", "twin-dicke-amplitude-from-len", ("wavefunction.py", "            amplitude = 1 / np.sqrt(counter)", "            amplitude = 1 / np.sqrt(len(indices))"))
+T("C12", "twin-dicke-stop-test-gt", ("wavefunction.py", "                if not _most_significant_set_bit(current_value) <= n_qubits:", "                if _most_significant_set_bit(current_value) > n_qubits:"))
+T("C12", "twin-msb-bit-length", ("wavefunction.py", "    bin_string = bin(val)\n    return len(bin_string) - 2", "    return val.bit_length()"))
